@@ -293,6 +293,14 @@ func (w *_node) LookupByString(key string) (datamodel.Node, error) {
 		if haveIdx != idx { // mismatching type
 			return nil, datamodel.ErrNotExists{Segment: datamodel.PathSegmentOfString(key)}
 		}
+		if _, ok := mtyp.(*schema.TypeAny); ok {
+			if customConverter := w.cfg.converterFor(mtyp.Name(), mval); customConverter != nil {
+				// member is an Any and we have a custom type converter for the type
+				return customConverter.customToAny(ptrVal(mval).Interface())
+			}
+			// member is an Any, safely assume a Node in mval
+			return nonPtrVal(mval).Interface().(datamodel.Node), nil
+		}
 		return newNode(w.cfg, mtyp, mval), nil
 	}
 	return nil, datamodel.ErrWrongKind{
@@ -1640,10 +1648,21 @@ func (w *_unionIterator) Next() (key, value datamodel.Node, _ error) {
 		return nil, nil, fmt.Errorf("bindnode: union %s has no member", w.val.Type())
 	}
 	mtyp := w.members[haveIdx]
-
-	node := newNode(w.cfg, mtyp, mval)
 	key = basicnode.NewString(mtyp.Name())
-	return key, node, nil
+
+	if _, ok := mtyp.(*schema.TypeAny); ok {
+		if customConverter := w.cfg.converterFor(mtyp.Name(), mval); customConverter != nil {
+			// member is an Any and we have a custom type converter for the type
+			v, err := customConverter.customToAny(ptrVal(mval).Interface())
+			if err != nil {
+				return nil, nil, err
+			}
+			return key, v, nil
+		}
+		// member is an Any, safely assume a Node in mval
+		return key, nonPtrVal(mval).Interface().(datamodel.Node), nil
+	}
+	return key, newNode(w.cfg, mtyp, mval), nil
 }
 
 func (w *_unionIterator) Done() bool {
